@@ -31,9 +31,13 @@ def C15(tier):
         dict(module="Partition", name="MC_Partition",
              cfg=dict(constants=dict(FIX, N=n_mc, NMin=0, OutOfRange=True, Emit=False), invariants=inv, properties=["Terminates"])),
         dict(module="Partition", name="MC_Partition_emit", emit=True,
-             cfg=dict(constants=dict(FIX, N=n_emit, NMin=1, OutOfRange=False, Emit=True), invariants=["DoneOK", "PanicIffOutOfRange", "EmitInv"])),
+             cfg=dict(constants=dict(FIX, N=n_emit, NMin=1, OutOfRange=False, Emit=True), invariants=["DoneOK", "PanicIffOutOfRange", "EmitInv"],
+                      properties=["RefinesProof"])),
         # independent look at the pattern-completeness argument: symbolic integer contents (Apalache)
         dict(engine="apalache", module="PartitionSym", name="AP_PartitionSym", maxn=q(tier, 6, 9), length=q(tier, 28, 40)),
+        # every array length: the invariant of PartitionAlg (cursor safety, loop invariant, never "panic", arrangement at return)
+        # is proved inductive by TLAPS; MC_Partition_emit checks that Partition refines PartitionAlg (property RefinesProof)
+        dict(engine="tlaps", module="PartitionProof", name="TLAPS_PartitionProof", deps=["PartitionAlg"]),
     ]
     stages = [
         dict(name="replay_dev", family="sort", trace="Trace_Sort", trace_constants=FIX, profile="dev",
